@@ -9,6 +9,7 @@
 -/
 import YashModel.Syntax.Model
 import YashModel.Syntax.Lexer
+import YashModel.Syntax.Parser
 namespace YashModel.Syntax
 
 mutual
@@ -118,11 +119,92 @@ mutual
     | i :: is => itemWords i ++ listWords is
 end
 
+/-! ## simple commands read back by the model parser -/
+
+def anyTilde (w : Word) : Bool := w.any fun | .tilde _ _ => true | _ => false
+
+def eqWords : List Word → List Word → Bool
+  | [], [] => true
+  | a :: as, b :: bs => eqWord a b && eqWords as bs
+  | _, _ => false
+
+def eqRedir : Redir → Redir → Bool
+  | .normal f o w, .normal f' o' w' => f = f' && o = o' && eqWord w w'
+  | .hereDoc f t w, .hereDoc f' t' w' => f = f' && t = t' && eqWord w w'
+  | _, _ => false
+
+def eqRedirs : List Redir → List Redir → Bool
+  | [], [] => true
+  | a :: as, b :: bs => eqRedir a b && eqRedirs as bs
+  | _, _ => false
+
+def eqAssigns : List Assign → List Assign → Bool
+  | [], [] => true
+  | a :: as, b :: bs =>
+    a.name = b.name && (match a.value, b.value with
+      | .scalar v, .scalar v' => eqWord v v'
+      | _, _ => false) && eqAssigns as bs
+  | _, _ => false
+
+/-- is the simple command inside what `parseSimple` models? -/
+def simpleModelled (c : SimpleCommand) : Bool :=
+  c.assigns.all (fun a => match a.value with
+    | .scalar v => modelledWord v && !anyTilde v && !hasUnquotedTilde v
+    | .array _ => false) &&
+  c.words.all (fun w => modelledWord w && !hasLaterTilde w && !w.isEmpty &&
+    !(hasUnquotedTilde w && (assignOf w).isSome)) &&
+  c.redirs.all (fun r => modelledWord (redirWord r) && !hasLaterTilde (redirWord r) && !(redirWord r).isEmpty)
+
+/-- verdict on one simple command: `none` = not in the modelled fragment -/
+def checkSimple (c : SimpleCommand) : Option Bool :=
+  if !simpleModelled c then none else
+  let text := printSimple c ++ [';']
+  match parseSimple (text.length + 2) text with
+  | some (some c', [';']) =>
+    some (eqAssigns c'.assigns c.assigns && eqWords c'.words c.words && eqRedirs c'.redirs c.redirs)
+  | _ => some false
+
+mutual
+  def compoundSimples : CompoundCommand → List SimpleCommand
+    | .grouping l => listSimples l
+    | .subshell l => listSimples l
+    | .forLoop _ _ b => listSimples b
+    | .whileLoop c b => listSimples c ++ listSimples b
+    | .untilLoop c b => listSimples c ++ listSimples b
+    | .ifCmd c b es _ e => listSimples c ++ listSimples b ++ elifSimples es ++ listSimples e
+    | .caseCmd _ items => caseSimples items
+  def elifSimples : List ElifThen → List SimpleCommand
+    | [] => []
+    | .mk c b :: rest => listSimples c ++ listSimples b ++ elifSimples rest
+  def caseSimples : List CaseItem → List SimpleCommand
+    | [] => []
+    | .mk _ b _ :: rest => listSimples b ++ caseSimples rest
+  def commandSimples : Command → List SimpleCommand
+    | .simple c => [c]
+    | .compound c _ => compoundSimples c
+    | .function _ _ c _ => compoundSimples c
+  def commandsSimples : List Command → List SimpleCommand
+    | [] => []
+    | c :: cs => commandSimples c ++ commandsSimples cs
+  def pipelineSimples : Pipeline → List SimpleCommand
+    | .mk cs _ => commandsSimples cs
+  def andOrRestSimples : List AndOrRest → List SimpleCommand
+    | [] => []
+    | .mk _ p :: rest => pipelineSimples p ++ andOrRestSimples rest
+  def itemSimples : Item → List SimpleCommand
+    | .mk (.mk first rest) _ => pipelineSimples first ++ andOrRestSimples rest
+  def listSimples : List Item → List SimpleCommand
+    | [] => []
+    | i :: is => itemSimples i ++ listSimples is
+end
+
 /-- second output column of the driver -/
 def specColumn (l : List Item) : String :=
   let rs := (listWords l).filterMap checkWord
-  if rs.isEmpty then "-"
-  else if rs.all id then "ok"
-  else "FAIL:a-printed-word-does-not-read-back"
+  let ss := (listSimples l).filterMap checkSimple
+  if rs.isEmpty && ss.isEmpty then "-"
+  else if !rs.all id then "FAIL:a-printed-word-does-not-read-back"
+  else if !ss.all id then "FAIL:a-printed-simple-command-does-not-read-back"
+  else "ok"
 
 end YashModel.Syntax
